@@ -266,10 +266,12 @@ structure Variant where
   cliDefault : Option Int
   /-- see `archFeatures`; applies when no `--config` is given and both selections are `internal-default` -/
   imxMode : Nat
+  /-- parser default of `--accelerator-config` -/
+  accDefault : String
 deriving Repr
 
-/-- the code as it stands (the parser default is regenerated from the live parser) -/
-def Variant.asWritten : Variant := ⟨false, Gen.Cfg.cliArenaCacheSize, 1⟩
+/-- the code as it stands (the parser defaults are regenerated from the live parser) -/
+def Variant.asWritten : Variant := ⟨false, Gen.Cfg.cliArenaCacheSize, 1, Gen.Cfg.cliAccelerator⟩
 
 /-- `_parse_config` of `main()` -/
 def parseConfigPath (env : Env) (config : String) : Except Err String :=
@@ -301,7 +303,7 @@ def mainArch (v : Variant) (env : Env) (a : MainArgs) : Except Err Arch :=
   match cli? with
   | .error e => .error e
   | .ok cli =>
-    let acc := a.accelerator.getD Gen.Cfg.cliAccelerator
+    let acc := a.accelerator.getD v.accDefault
     if !(Gen.accelerators.any fun r => r.name == acc) then .error .argparse else
     match mapPaths env a.configs with
     | .error e => .error e
